@@ -468,6 +468,9 @@ impl<'this> InternalOptimisingLineFormatter<'this, '_> {
             content: content_len,
         } = self.token_lengths[first_token_index];
 
+        // As for every other token, only the last line of a multiline token counts.
+        let multiline_len = self.get_multiline_token_last_line_length(first_token_index);
+
         let (new_line, requirement, last_line_length, base_can_break) = match (
             self.get_formatting_invariant(0, line.1),
             first_token_decision,
@@ -475,13 +478,13 @@ impl<'this> InternalOptimisingLineFormatter<'this, '_> {
             (Some(DR::MustNotBreak), FirstDecision::Break) => (
                 Decision::Continue,
                 DR::MustNotBreak,
-                spaces_before + content_len,
+                multiline_len.unwrap_or(spaces_before + content_len),
                 true,
             ),
             (_, FirstDecision::Break) => (
                 Decision::Break { continuations: 0 },
                 DR::MustBreak,
-                starting_ws.len(self.recon_settings) + content_len,
+                multiline_len.unwrap_or(starting_ws.len(self.recon_settings) + content_len),
                 true,
             ),
             (
@@ -493,7 +496,7 @@ impl<'this> InternalOptimisingLineFormatter<'this, '_> {
             ) => (
                 Decision::Continue,
                 DR::MustNotBreak,
-                line_length + spaces_before + content_len,
+                multiline_len.unwrap_or(line_length + spaces_before + content_len),
                 can_break,
             ),
         };
@@ -1170,6 +1173,23 @@ impl<'this> InternalOptimisingLineFormatter<'this, '_> {
             .map(|decision| decision.last_line_length)
     }
 
+    fn get_multiline_token_last_line_length(&self, token_index: usize) -> Option<u32> {
+        let (token, _) = self.formatted_tokens.get_token(token_index)?;
+        let (TT::TextLiteral(TextLiteralKind::MultiLine)
+        | TT::Comment(CommentKind::MultilineBlock)) = token.get_token_type()
+        else {
+            return None;
+        };
+        // Multiline tokens necessarily have a break in them, so the line
+        // length must be calculated.
+        token
+            .get_content()
+            .lines()
+            .skip(1)
+            .last()
+            .map(|last_line| last_line.len() as u32)
+    }
+
     fn get_token_line_length(
         &self,
         starting_ws: LineWhitespace,
@@ -1177,18 +1197,10 @@ impl<'this> InternalOptimisingLineFormatter<'this, '_> {
         decision: Decision,
         token_index: Option<usize>,
     ) -> u32 {
-        if let Some((
-            TT::TextLiteral(TextLiteralKind::MultiLine) | TT::Comment(CommentKind::MultilineBlock),
-            token_content,
-        )) = token_index
-            .and_then(|index| self.formatted_tokens.get_token(index))
-            .map(|(token, _)| (token.get_token_type(), token.get_content()))
+        if let Some(last_line_length) =
+            token_index.and_then(|index| self.get_multiline_token_last_line_length(index))
         {
-            // Multiline tokens necessarily have a break in them, so the line
-            // length must be calculated.
-            if let Some(last_line) = token_content.lines().skip(1).last() {
-                return last_line.len() as u32;
-            }
+            return last_line_length;
         }
         match (
             decision,
